@@ -1,4 +1,5 @@
 """C18 — exceeding an analysis budget only disables optimisation, never correctness."""
+import re
 from ..mir import parent_fn
 from ..flow import origins
 from ..guards import ne, sh
@@ -265,6 +266,39 @@ def r2b_derived_bounds_shape(ctx):
             ctx.ok("liveness-bound|work-x-locals", lb.where(), "per-function events multiplied by the local count")
         else:
             ctx.bad("liveness-bound|not-multiplicative", lb.where(), "the liveness event bound no longer multiplies per-function work with the number of locals")
+        # the cost model (stated in the function): a sweep touches two block-sized sets per *block*, the backward walk one
+        # set per *op*.  The per-function counts arrive as a zipped pair; the doubled component must be the one zipped from
+        # function_blocks, the other the one from function_ops (both are u32: a swap still compiles).
+        par = ctx.need("analysis::limits::liveness_event_bound")
+        ctx.touch(par)
+        zips = [c for c in par.calls() if (c.callee or "").split("::")[-1] == "zip"]
+        comp = {}
+        if zips:
+            a0, a1 = sh(ne(par.deep(zips[0].args[0]))), sh(ne(par.deep(zips[0].args[1])))
+            for i, t in ((0, a0), (1, a1)):
+                comp[i] = "blocks" if "function_blocks" in t else "ops" if "function_ops" in t else "?"
+        doubled, plain = set(), set()
+        for c in lb.calls():
+            last = (c.callee or "").split("::")[-1]
+            if last in ("saturating_mul", "wrapping_mul", "checked_mul"):
+                texts = [sh(ne(lb.deep(a))) for a in c.args]
+                if "2" in texts:
+                    for t in texts:
+                        m = re.search(r"arg\d\.1\.(\d)", t)
+                        if m:
+                            doubled.add(int(m.group(1)))
+            if last in ("saturating_add", "wrapping_add", "checked_add"):
+                for a in c.args:
+                    t = sh(ne(lb.deep(a)))
+                    m = re.match(r"^(?:from\()?\*?arg\d\.1\.(\d)\)?$", t)
+                    if m:
+                        plain.add(int(m.group(1)))
+        if not zips or "?" in comp.values() or not doubled:
+            ctx.bad("liveness-bound|cost-model|shape", lb.where(), "cannot see which per-function count is doubled in the liveness event bound (zip %s, doubled %s)" % (comp, sorted(doubled)))
+        elif {comp.get(i) for i in doubled} == {"blocks"} and {comp.get(i) for i in plain} <= {"ops"}:
+            ctx.ok("liveness-bound|cost-model", lb.where(), "2 x blocks + ops per function")
+        else:
+            ctx.bad("liveness-bound|cost-model|%s" % "+".join(sorted(comp.get(i, "?") for i in doubled)), lb.where(), "the liveness event bound doubles the %s count and adds the %s count once; the work it has to bound is two set operations per block and one per op. For straight-line code the bound is twice too high (programs within the limit lose their analysis), for branchy code too low (programs over the limit are analysed)" % ("/".join(sorted(comp.get(i, "?") for i in doubled)), "/".join(sorted(comp.get(i, "?") for i in plain)) or "?"))
 
 
 def r4_caps_only_gate_the_analyses(ctx):
@@ -300,7 +334,15 @@ def r4_caps_only_gate_the_analyses(ctx):
     ctx.floor("bodies that consult the analysis limits", len(readers), 3)
 
 
-RULES = [("C18-R1", r1_skip_path), ("C18-R2", r2_every_cap_compared), ("C18-R2b", r2b_derived_bounds_shape), ("C18-R3", r3_no_plan_runs_everything), ("C18-R3b", r3b_facts_independent_of_plan), ("C18-R4", r4_caps_only_gate_the_analyses)]
+def r5_fallback_marks_every_local(ctx):
+    """When a callee's summary is unavailable (budget exhausted) liveness falls back to "the call may read everything":
+    set_all_locals has to cover every local of the range, whatever its size.  Its word arithmetic is that of the other
+    bit-set helpers (shared with C03-R4d: same word width, the count itself is what is divided)."""
+    from .c03 import r4d_bitset_arithmetic_agrees
+    r4d_bitset_arithmetic_agrees(ctx)
+
+
+RULES = [("C18-R1", r1_skip_path), ("C18-R2", r2_every_cap_compared), ("C18-R2b", r2b_derived_bounds_shape), ("C18-R3", r3_no_plan_runs_everything), ("C18-R3b", r3b_facts_independent_of_plan), ("C18-R4", r4_caps_only_gate_the_analyses), ("C18-R5", r5_fallback_marks_every_local)]
 
 EXPLANATION = (
     "R1: in Resolver::emit_analysis_warnings the preflight count and first_exceeded_limit(.., DEFAULT_CAPS) dominate every "
